@@ -161,6 +161,7 @@ def run(chk):
     from contracts import stores as KS
     c = KS.filesystem_query_contract(); chk.prove(c); chk.canary(c)          # the same bookkeeping in the filesystem source: shortcuts and per-directory searches see exactly query + own + handed-down filters
     c = KS.memory_all_versions_contract(); chk.prove(c); chk.canary(c)
+    c = KS.memory_get_contract(); chk.prove(c); chk.canary(c)
     c = KS.memory_query_contract(); chk.prove(c); chk.canary(c)          # a memory source answers with exactly the objects satisfying query + own + handed-down filters, and never writes to the caller's query
     for m in ('all_versions', 'query', 'get'):          # filters passed down by a composite reach every member (call-site obligations of the federation contract)
         c = KS.composite_federation_contract(m); chk.prove(c); chk.canary(c)
